@@ -13,19 +13,25 @@
 (*            (use_step_matcher / end of step module), the function either   *)
 (*            new or one registered before; an optional change of the        *)
 (*            default matcher at the very beginning (environment.py).        *)
-(* In breadth-first mode histories have at most BfsRegs registrations; under *)
-(* -simulate (random walks) at most SimRegs and no "single" behaviours.      *)
+(* Histories of up to FullRegs registrations are enumerated completely;      *)
+(* longer ones (up to MaxRegs) are a seeded pseudo-random sample: a successor *)
+(* at level n is kept iff a hash of the choices made so far and of the seed   *)
+(* (environment variable C11_SEED) is 0 modulo SampleMod[n] -- breadth-first  *)
+(* search over a pruned tree, deterministic for a given seed.                 *)
 (* hist is part of the state, so every state is one history; Emit prints     *)
 (* every history that ends in a registration together with the predicted     *)
 (* register results and the predicted result of every lookup                 *)
 (* (step type x text derived from the registered patterns).                  *)
-EXTENDS StepRegistry, TLC, Json
+EXTENDS StepRegistry, TLC, Json, IOUtils
 CONSTANTS Kinds,        \* matcher kinds of the "single" behaviours
           HistKinds,    \* matcher kinds a history may switch to
           Defaults,     \* default matchers an environment may have installed
           RegTypes,     \* step types used by registrations of histories
           SingleTypes,  \* step types used by the "single" behaviours
-          BfsRegs, SimRegs, BigLen
+          FullRegs,     \* histories up to this many registrations: all of them
+          MaxRegs,      \* longer ones up to this many: sampled
+          SampleMod,    \* sequence: keep 1 of SampleMod[n] successors at level n > FullRegs
+          BigLen
 
 \* ---------------------------------------------------------------- vocabulary
 Go   == <<"g","o">>
@@ -75,10 +81,16 @@ PatsOfLen(n) == {[i \in 1..n |-> MkElem(f[i], i)] : f \in [1..n -> ElemChoices]}
 BigPool == {p \in UNION {PatsOfLen(n) : n \in 1..BigLen} : p[1].k # "optional"}
 
 \* ---------------------------------------------------------------- the state space
-VARIABLES ph, st, hist, nreg, nfun
-vars == <<ph, st, hist, nreg, nfun>>
-Mode == TLCGet("config").mode
-MaxRegs == IF Mode = "bfs" THEN BfsRegs ELSE SimRegs
+VARIABLES ph, st, hist, nreg, nfun, h
+vars == <<ph, st, hist, nreg, nfun, h>>
+Seed == IF "C11_SEED" \in DOMAIN IOEnv THEN atoi(IOEnv.C11_SEED) % 60000 ELSE 1
+\* hash of the choices of a history (all products stay below 2^31)
+KindCode(mk) == CASE mk = "parse" -> 0 [] mk = "cfparse" -> 1 [] mk = "re" -> 2 [] OTHER -> 3
+TypeCode(ty) == CASE ty = "given" -> 0 [] ty = "when" -> 1 [] OTHER -> 2
+PreCode(pre) == IF pre.a = "none" THEN 0 ELSE IF pre.a = "end" THEN 5 ELSE 1 + KindCode(pre.kind)
+Code(pre, ty, i, func) == ((PreCode(pre) * 3 + TypeCode(ty)) * 6 + (i - 1)) * 8 + (func - 1)
+Mix(old, code) == LET a == (old * 131 + code * 7919 + Seed) % 65521 IN (a * 31421 + 6927) % 65521
+Kept(level, hash) == level <= FullRegs \/ hash % SampleMod[level] = 0
 
 Act(a, mk, ty, p, text, func, res) == [a |-> a, kind |-> mk, ty |-> ty, pat |-> p, text |-> text, func |-> func, res |-> res]
 UseAct(mk)    == Act("use", mk, "", <<>>, <<>>, 0, "")
@@ -86,22 +98,22 @@ EndAct(mk)    == Act("end", mk, "", <<>>, <<>>, 0, "")
 SetDefAct(mk) == Act("setdef", mk, "", <<>>, <<>>, 0, "")
 RegAct(s, ty, p, func, res) == Act("reg", s.current, ty, p, Render(p, s.current), func, res)
 
-Init == ph = "start" /\ st = InitReg /\ hist = <<>> /\ nreg = 0 /\ nfun = 0
+Init == ph = "start" /\ st = InitReg /\ hist = <<>> /\ nreg = 0 /\ nfun = 0 /\ h = 0
 
-Single == /\ ph = "start" /\ Mode = "bfs"
+Single == /\ ph = "start"
           /\ \E p \in BigPool, mk \in Kinds, ty \in SingleTypes :
                 /\ Renderable(p, mk)
                 /\ LET s1 == UseMatcher(st, mk)
                        r  == Register(s1, ty, p, 1)
                    IN /\ st' = r.st
                       /\ hist' = (IF mk = "parse" THEN <<>> ELSE <<UseAct(mk)>>) \o <<RegAct(s1, ty, p, 1, r.res)>>
-          /\ ph' = "single" /\ nreg' = 1 /\ nfun' = 1
+          /\ ph' = "single" /\ nreg' = 1 /\ nfun' = 1 /\ h' = h
 
 EnvDefault == /\ ph = "start"
               /\ \E mk \in Defaults \ {"parse"} :
                     /\ st' = SetDefault(st, mk)
                     /\ hist' = <<SetDefAct(mk)>>
-              /\ ph' = "hist" /\ UNCHANGED <<nreg, nfun>>
+              /\ ph' = "hist" /\ h' = 7 /\ UNCHANGED <<nreg, nfun>>
 
 \* an optional matcher switch, then one registration
 PreOptions(s) == {[a |-> "none", kind |-> s.current]}
@@ -114,7 +126,9 @@ RegisterStep ==
    /\ \E pre \in PreOptions(st), ty \in RegTypes, i \in DOMAIN SmallPool, func \in 1..(nfun + 1) :
          LET s1 == ApplyPre(st, pre)
              p  == SmallPool[i]
-         IN /\ Renderable(p, s1.current)
+         IN /\ Kept(nreg + 1, Mix(h, Code(pre, ty, i, func)))
+            /\ Renderable(p, s1.current)
+            /\ h' = Mix(h, Code(pre, ty, i, func))
             /\ LET r == Register(s1, ty, p, func)
                IN /\ st' = r.st
                   /\ hist' = hist \o PreActs(pre) \o <<RegAct(s1, ty, p, func, r.res)>>
@@ -223,4 +237,6 @@ ParseOrRe  == {"parse", "re"}
 GivenWhenStep == {"given", "when", "step"}
 GivenStep  == {"given", "step"}
 OnlyGiven  == {"given"}
+ModQuick    == <<1, 1, 300>>
+ModThorough == <<1, 1, 2000, 400, 500>>
 =============================================================================
